@@ -352,6 +352,8 @@ def c12() -> int:
     if not quick:
         for nv, nr in ((4, 1), (1, 4), (4, 2), (2, 4), (4, 3), (3, 4), (4, 4)):
             shards += [(nv, nr, p, 16, True) for p in range(16)]
+        for nv, nr in ((5, 1), (1, 5), (5, 2), (2, 5), (5, 3), (3, 5)):
+            shards += [(nv, nr, p, 32, True) for p in range(32)]
     gres = pmap(_geom_shard, rotate(shards, seed()))
     eshards = [(gi, fl, va0) for gi in range(len(GEOMS)) for fl in ((), ("f1", "f2"), ("f1",)) for va0 in VEH_ATTRS]
     eres = pmap(_elig_shard, rotate(eshards, seed()))
@@ -370,7 +372,7 @@ def c12() -> int:
             "evaluations": cases,
             "distinct_nontrivial": nontrivial,
             "rule": "(i) every placement of nv vehicles and nr requests on 7 cells for all (nv, nr) in {0..3}^2"
-            + ("" if quick else " plus every multiset placement for (4,1..4),(1..3,4)")
+            + ("" if quick else " plus every multiset placement for (4,1..4),(1..3,4),(5,1..3),(1..3,5)")
             + ", all eligible, no fleets; (iii) on the same geometries, under a configuration whose valid_dispatch_states include DispatchTrip, every combination of (eligible, en route to its own request, out of service) x (waiting, has a vehicle); (ii) on 6 fixed 3x3 geometries every combination of 7 vehicle attributes (eligible, out of service, off shift, low range, other fleet, no fleet, both fleets) and 3 request attributes (waiting, has a vehicle, other fleet), without fleets, with fleets {f1,f2} and with the single declared fleet {f1}; non-trivial = both sides non-empty / some attribute not the default",
             "geometry_cases": sum(r["cases"] for r in gres),
             "eligibility_cases": sum(r["cases"] for r in eres),
